@@ -361,6 +361,20 @@ impl GrammarBuilder {
                 }
 
                 if let Some(ConstVal::String(kind)) = new_production.meta.remove("kind") {
+                    // Production kind names the production, its action and
+                    // its AST type so it must be unique inside the rule.
+                    if self.productions.iter().any(|p| {
+                        p.nonterminal == nt_idx && p.kind.as_deref() == Some(kind.as_ref().as_str())
+                    }) {
+                        err!(
+                            format!(
+                                "Production kind '{}' is used more than once in the rule '{}'.",
+                                kind, rule.name
+                            ),
+                            Some(self.file.clone()),
+                            kind.span
+                        )?
+                    }
                     new_production.kind = Some(kind.into());
                 }
 
